@@ -31,8 +31,8 @@ vars == <<doc, last, n, hist>>
 IntV(i) == [k |-> "int", v |-> i]
 RefV(x) == [k |-> "ref", n |-> x]
 OpqV(h) == [k |-> "opq", h |-> h]
-SetV(ml, items) == [k |-> "set", rec |-> FALSE, ml |-> ml, items |-> items]
-RecV(ml, items) == [k |-> "set", rec |-> TRUE, ml |-> ml, items |-> items]
+SetV(ml, items) == [k |-> "set", rec |-> FALSE, ml |-> ml, items |-> items, dang |-> <<>>]
+RecV(ml, items) == [k |-> "set", rec |-> TRUE, ml |-> ml, items |-> items, dang |-> <<>>]
 B(ap, v) == NewB(ap, v)
 BC(ap, v, lead, eol, blank) == [k |-> "b", ap |-> ap, val |-> v, lead |-> lead, eol |-> eol, blank |-> blank]
 Inh(names) == [k |-> "i", src |-> "", names |-> names, lead |-> <<>>, eol |-> "", blank |-> FALSE]
@@ -103,7 +103,7 @@ Refusal(d, o) ==
     ELSE LET I == IF HasLayer(d, o.sel) THEN ItemsAt(d, o.sel) ELSE <<>> IN
          IF o.f = "set" THEN SetRefusal(I, o.path) ELSE RmRefusal(I, o.path)
 
-ErrorClass(reason) == IF reason = "missing" THEN "KeyError" ELSE "ValueError"
+ErrorClass(reason) == IF reason \in {"missing", "family"} THEN "KeyError" ELSE "ValueError"
 
 WithItems(d, sel, J) ==
     IF sel = 0 THEN [d EXCEPT !.body.items = J]
@@ -150,7 +150,7 @@ C05_Effect == Ok => IF last.f = "set" THEN SetEffect(PreI, PostI, last.path, las
 C05_Form == (Ok /\ last.f = "set") => SetForm(PreI, PostI, last.path) /\ FreshGoesLast(PreI, PostI, last.path)
 C05_NoDuplicate == (Ok /\ NoDuplicate(PreI)) => NoDuplicate(PostI)
 C05_RefusalReasons == (Stepped /\ last.res # "ok") =>
-                         last.why \in {"missing", "non_set", "attrpath_root", "no_layer", "no_target"}
+                         last.why \in {"missing", "family", "non_set", "attrpath_root", "no_layer", "no_target"}
 C08_Atomic == (Stepped /\ last.res # "ok") => doc = last.pre
 C08_ErrorClass == Stepped => last.res \in {"ok", "KeyError", "ValueError"}
 \* C09: the other layers, the body and the wrappers are untouched; creation adds one innermost layer; an
